@@ -68,6 +68,16 @@ func (c *Ctx) Thorough() bool { return c.Tier == "thorough" }
 // Eval counts one oracle evaluation.
 func (c *Ctx) Eval() { c.R.Evals++ }
 
+// ProgressHook is set by the worker: a case that runs many inputs calls Progress() before each input
+// so that the cpu-time watchdog measures one input, not the whole batch.
+var ProgressHook func()
+
+func (c *Ctx) Progress() {
+	if ProgressHook != nil {
+		ProgressHook()
+	}
+}
+
 // Count increments a coverage counter.
 func (c *Ctx) Count(key string) { c.R.Counters[key]++ }
 func (c *Ctx) CountN(key string, n int) {
